@@ -343,15 +343,20 @@ fn run_chain(ext: &str, bytes: &[u8], with_ref: bool, model: bool) -> ChainObs {
                 Ok(())
             }, ps);
             let c = cnt.into_inner();
-            fx.borrow_mut().push((tag.to_string(), nps, c.0, c.1.saturating_sub(n_text_before)));
+            let mut items = 0usize;
             if let Ok(mut ps) = r {
                 for p in ps.iter_mut() {
                     p.sync_all();
                     let st = p.state();
                     let g = st.read().unwrap();
                     *n.borrow_mut() += g.value.to_string().len();
+                    if p.name() == "FileTransfer" {
+                        items += g.value["treeItems"].as_array().map(|a| a.len()).unwrap_or(0);
+                    }
                 }
             }
+            // last number: messages that got a payload text from a plugin; for the file-transfer passes: transfers listed in the plugin state
+            fx.borrow_mut().push((tag.to_string(), nps, c.0, if tag.starts_with("ft") { items } else { c.1.saturating_sub(n_text_before) }));
             n.into_inner()
         });
     };
@@ -590,8 +595,33 @@ fn gen_ctrl_payload(rng: &mut Rng, be: bool, response: bool) -> Vec<u8> {
 
 const ECUS: [[u8; 4]; 6] = [*b"ECU1", *b"ECU2", *b"Ecu1", *b"E\0\0\0", [0xff, 0xfe, 0x80, 0x01], *b"CAN1"];
 
+/// lifecycle scenarios of the C05..C08 generator (reboots, suspend/resume shifts, buffering delays, odd timestamps,
+/// control requests/responses, non-monotone reception), encoded as storage-framed DLT
+fn gen_lcspec(seed: u64, small: bool) -> Vec<u8> {
+    let mut rng = Rng::new(seed ^ 0x1C5);
+    let ms = vharness::lcgen::gen_general(&mut rng, if small { 14 } else { 300 });
+    let mut out = vec![];
+    for (i, s) in ms.iter().enumerate() {
+        let e = [b'E', b'C', b'0' + (s.ecu / 10) % 10, b'0' + s.ecu % 10];
+        let mut m = GM::new(&e, (s.rt / 1_000_000) as u32, (s.rt % 1_000_000) as u32, s.ts_dms);
+        m.htyp = 0x20 | if s.has_ts { 0x10 } else { 0 };
+        m.mcnt = i as u8;
+        match s.kind {
+            1 => { m = m.ext(CTRL_REQ, 1, b"APID", b"CTID"); m.payload = vec![0x13, 0, 0, 0]; }
+            2 => { m = m.ext(CTRL_RESP, 1, b"APID", b"CTID"); m.payload = vec![0x13, 0, 0, 0, 0]; }
+            3 => { m = m.ext(CTRL_RESP | 1, 1, b"APID", b"CTID"); m.payload = vec![0x11, 0, 0, 0, 1]; }
+            _ => {}
+        }
+        m.enc(false, &mut out);
+    }
+    out
+}
+
 /// generated traces; `g` selects the flavour.  Returns the byte stream.
 fn gen_dlt(g: &str, seed: u64, small: bool) -> Vec<u8> {
+    if g == "lcspec" {
+        return gen_lcspec(seed, small);
+    }
     let mut rng = Rng::new(seed ^ 0xC03);
     let mut out = vec![];
     let serial = g == "serial";
@@ -638,7 +668,8 @@ fn gen_dlt(g: &str, seed: u64, small: bool) -> Vec<u8> {
             "someip" => if rng.chance(3, 4) { 4 } else { 0 },
             "can" => if rng.chance(3, 4) { 5 } else { 0 },
             "lc" => if rng.chance(1, 6) { 2 } else { 6 },
-            _ => rng.below(7),
+            "muniic" => if rng.chance(3, 4) { 7 } else { 0 },
+            _ => rng.below(8),
         };
         match flavour {
             1 => {
@@ -762,6 +793,21 @@ fn gen_dlt(g: &str, seed: u64, small: bool) -> Vec<u8> {
                 } else {
                     m.payload = p;
                 }
+            }
+            7 => {
+                // muniic: verbose, ctid MMSG, 13 arguments: #7 interface id, #8 message id, #12 payload (ids of /repo/tests/muniic/min.json)
+                let mut p = vec![];
+                for k in 0..13 {
+                    match k {
+                        7 => a_num(&mut p, 0x40, 3, if rng.chance(5, 6) { 1228779599 } else { weird_u32(&mut rng) as u64 }, be),
+                        8 => a_num(&mut p, 0x40, 3, *rng.pick(&[3478824001u64, 3478824001, 0, 1, u32::MAX as u64]), be),
+                        12 => { let l = rng.size(16) as usize; a_raw(&mut p, &rand_bytes(&mut rng, l), be) }
+                        _ => match rng.below(3) { 0 => a_num(&mut p, 0x40, 3, rng.next(), be), 1 => a_str(&mut p, b"x", be, false), _ => a_num(&mut p, 0x10, 1, 1, be) },
+                    }
+                }
+                if rng.chance(1, 8) { let k = rng.below(p.len() as u64 + 1) as usize; p.truncate(k); }
+                m = m.ext(VERB_INFO, if rng.chance(7, 8) { 13 } else { rng.below(20) as u8 }, b"MUNI", b"MMSG");
+                m.payload = p;
             }
             _ => {
                 if rng.chance(1, 2) {
@@ -1437,6 +1483,14 @@ fn corpus() -> Vec<(Value, &'static str)> {
     v.push((r_text("txt", "1.000\u{a0}1 2 I tag: a\n"), "w_logcat_nbsp"));
     v.push((r_text("txt", "01-01 0\u{663}:00:00.00  1  2 I tag: a\n"), "w_logcat_digits"));
     v.push((r_text("txt", "99999999999999.000 1 2 I tag: a\n18446744073709.000 1 2 I tag: b\n"), "w_logcat_huge_ts"));
+    v.push((r_text("log", "[2024-01-02 03:04:05.678] [INF] [] a\n[2024-01-02 03:04:05.679] [INF] [ ] b\n[2024-01-02 03:04:05.680] [INF] [  ] c\n"), "w_empty_tags"));
+    v.push((r_text("txt", "1.000 1 2 I  : a\n2.000 1 2 I   : b\n3.000 1 2 I : c\n"), "w_empty_tags"));
+    let long = "T".repeat(65_510);
+    v.push((r_text("txt", &format!("1.000 1 2 I {}: a\n2.000 1 2 I x: b\n", long)), "w_long_tag"));
+    v.push((r_text("log", &format!("[2024-01-02 03:04:05.678] [INF] [{}] a\n", long)), "w_long_tag"));
+    v.push((r_text("asc", &format!("date Tue Apr 12 08:55:37 AM 2022\n// BusMapping: CAN 1 = {}\n   0.000001 1  36f  Rx   d 0\n", long)), "w_long_tag"));
+    v.push((r_text("asc", &format!("   0.000001 1  36f  Rx   d 21845 {}\n   0.000002 1  36f  Rx   d 65535 {}\n", "ab ".repeat(21845), "cd ".repeat(65535))), "w_long_tag"));
+    v.push((with_flag(r_text("asc", "date Tue Apr 12 08:55:37 AM 2022\n   429496.729600 1  36f  Rx   d 0\n   429497.000000 1  36f  Rx   d 0\n"), "ref"), "w_asc_ts_offset"));
     v.push((r_text("log", "[2024-01-02 03:04:05.678] [INF] [tag] message\n[2024-13-40 25:61:61.999] [€€€] [éé] m\n[2999-12-31 23:59:59.999] [ERR] [ää] m\n"), "w_genlog"));
     v
 }
@@ -1444,7 +1498,7 @@ fn corpus() -> Vec<(Value, &'static str)> {
 const DLT_FILES: [&str; 7] = ["lc_ex002.dlt", "lc_ex003.dlt", "lc_ex004.dlt", "lc_ex005.dlt", "lc_ex006.dlt", "ex_1970_1_1.dlt", "test_ascii_utf8_strings.dlt"];
 const TEXT_FILES: [(&str, &str); 11] = [("asc", "can_example1.asc"), ("asc", "can_example1b.asc"), ("asc", "can_example1c.asc"), ("asc", "can_example2a.asc"), ("asc", "can_example2b.asc"), ("asc", "can_example3.asc"),
     ("txt", "logcat_example1.txt"), ("txt", "logcat_example2.txt"), ("txt", "logcat_example3.txt"), ("txt", "logcat_example4.txt"), ("log", "genlog_example1.log")];
-const GENS: [&str; 8] = ["lc", "ft", "ctrl", "nv", "someip", "can", "serial", "mixed"];
+const GENS: [&str; 10] = ["lc", "lcspec", "ft", "ctrl", "nv", "someip", "can", "muniic", "serial", "mixed"];
 const BIN_MUTS: [&str; 4] = ["flip", "trunc", "splice", "bytes"];
 const TEXT_MUTS: [&str; 6] = ["flip", "trunc", "splice", "bytes", "uni", "longline"];
 
@@ -1486,9 +1540,9 @@ fn build_cases(tier: &str, seed: u64, count: Option<u64>) -> Vec<(Value, String)
     let n_gen = count.unwrap_or(36 * scale);
     for g in GENS {
         for k in 0..n_gen {
-            let small = k % 3 == 0;
+            let small = if g == "lcspec" { k % 3 != 0 } else { k % 3 == 0 };
             let base = r_gen("dlt", g, rng.next(), small);
-            let (r, tag) = match k % 4 {
+            let (r, tag) = match (if g == "lcspec" && k % 2 == 0 { 0 } else { k % 4 }) {
                 0 => (base, format!("gen:{}", g)),
                 1 => { let m = *rng.pick(&BIN_MUTS); (with_mut(base, m, rng.next()), format!("gen:{}+{}", g, m)) }
                 _ => {
